@@ -20,7 +20,52 @@ static inline uint64_t spec_trunc(uint64_t x, unsigned bits) { return x & spec_m
 /* ---- C01: modular arithmetic ---- */
 static inline uint64_t spec_add(uint64_t a, uint64_t b, unsigned bits) { return (a + b) & spec_mask(bits); }
 static inline uint64_t spec_sub(uint64_t a, uint64_t b, unsigned bits) { return (a - b) & spec_mask(bits); }
+/* Modular product.  spec_mul is the defining form.  SAT back ends cannot prove two structurally different
+ * multiplier circuits equal beyond ~12 bits (CBMC additionally encodes signed and unsigned multiplication
+ * differently and narrows products to the width of the enclosing cast), so the post-condition of a
+ * multiplication is stated as spec_mul_ok(r, a, b, bits): r equals ONE of several expressions, each of which
+ * is, by two's-complement arithmetic alone, equal to (a*b) mod 2^bits: product of the zero-extended operands,
+ * of the sign-extended operands (wrapping), formed at the lane width / 32 / 64 bits, and -- for 64-bit lanes --
+ * the sum of 32-bit partial products (lemma L1, proved in /verif/lemmas).  Each disjunct alone implies the
+ * property; which one the solver uses is immaterial.  Signed products in this function wrap by construction
+ * (they are specification arithmetic, not code under test). */
 static inline uint64_t spec_mul(uint64_t a, uint64_t b, unsigned bits) { return (a * b) & spec_mask(bits); }
+#ifdef AVM_NATIVE
+static inline int spec_mul_ok(uint64_t r, uint64_t a, uint64_t b, unsigned bits) { return (r & spec_mask(bits)) == spec_mul(a, b, bits); }
+#else
+#pragma CPROVER check push
+#pragma CPROVER check disable "signed-overflow"
+#pragma CPROVER check disable "conversion"
+static inline int spec_mul_ok(uint64_t r, uint64_t a, uint64_t b, unsigned bits) {
+  switch (bits) {
+    case 8: {
+      uint8_t ua = (uint8_t)a, ub = (uint8_t)b, ur = (uint8_t)r; int8_t sa = (int8_t)ua, sb = (int8_t)ub;
+      return ur == (uint8_t)(ua * ub) || (int8_t)ur == (int8_t)(sa * sb) || ur == (uint8_t)((uint32_t)ua * (uint32_t)ub);
+    }
+    case 16: {
+      uint16_t ua = (uint16_t)a, ub = (uint16_t)b, ur = (uint16_t)r; int16_t sa = (int16_t)ua, sb = (int16_t)ub;
+      return ur == (uint16_t)((uint32_t)ua * (uint32_t)ub) || (int16_t)ur == (int16_t)(sa * sb);
+    }
+    case 32: {
+      uint32_t ua = (uint32_t)a, ub = (uint32_t)b, ur = (uint32_t)r; int32_t sa = (int32_t)ua, sb = (int32_t)ub;
+      return ur == ua * ub || (int32_t)ur == sa * sb || ur == (uint32_t)((uint64_t)ua * (uint64_t)ub);
+    }
+    default: {
+      int64_t sa = (int64_t)a, sb = (int64_t)b;
+      uint64_t al = a & 0xffffffffull, ah = a >> 32, bl = b & 0xffffffffull, bh = b >> 32;
+#define SPEC_L1(P0, P1, P2) (r == (P0) + (((P1) + (P2)) << 32))
+      return r == a * b || (int64_t)r == sa * sb
+          /* lemma L1 (a*b mod 2^64 from 32-bit partial products), with either operand order of each product */
+          || SPEC_L1(al * bl, al * bh, ah * bl) || SPEC_L1(al * bl, al * bh, bl * ah)
+          || SPEC_L1(al * bl, bh * al, ah * bl) || SPEC_L1(al * bl, bh * al, bl * ah)
+          || SPEC_L1(bl * al, al * bh, ah * bl) || SPEC_L1(bl * al, al * bh, bl * ah)
+          || SPEC_L1(bl * al, bh * al, ah * bl) || SPEC_L1(bl * al, bh * al, bl * ah);
+#undef SPEC_L1
+    }
+  }
+}
+#pragma CPROVER check pop
+#endif
 static inline uint64_t spec_neg(uint64_t a, unsigned bits) { return ((uint64_t)0 - a) & spec_mask(bits); }
 
 /* ---- C06: <bit> ---- */
